@@ -171,6 +171,23 @@ func runDetStream(c *runCtx) {
 	}
 	c.stats.Extra["seeds"] = len(seeds)
 	c.sameNameHistories(seeds)
+	// every 1-byte input, and all pairs / triples over the bytes that steer the walk (BOM parts, UTF-8 lead and
+	// continuation bytes, control bytes, the first bytes of the common signatures)
+	al := []byte{0, 1, 0x0B, 0x1A, 0x1B, ' ', '\n', '<', '{', '[', '"', 'P', 'K', 3, 0x7F, 0x80, 0xBF, 0xC3, 0xE2, 0xEF, 0xBB, 0xFE, 0xFF, 0x1F, 0x8B, 0xCA}
+	for b := 0; b < 256; b++ {
+		for _, l := range []uint32{3072, 0, 1} {
+			c.obsCase("tiny", []byte{byte(b)}, l)
+		}
+	}
+	for _, a := range al {
+		for _, b := range al {
+			c.obsCase("tiny", []byte{a, b}, 3072)
+			c.obsCase("tiny", []byte{a, b}, 2)
+			for _, d := range al[:14] {
+				c.obsCase("tiny", []byte{a, b, d}, 3072)
+			}
+		}
+	}
 	if f := limitStress(250 * time.Millisecond); f != "" {
 		c.propfail("C01", f)
 	}
